@@ -23,8 +23,8 @@ ASSUMPTIONS = [
     'one operand set never holds two alternatives that read the same operand text (two plain-expression kinds, '
     'enumeration next to numeric_enumeration, decorated next to undecorated forms of one register): their mutual '
     'order is not stated by the property',
-    'an identifier that is an enumeration key is only offered as a bare operand, never at the head of a larger '
-    'expression',
+    'an enumeration key at the head of a larger expression ("zf + 1") is an expression over a label of that name, not '
+    'the key; a key that is not an identifier ("eq.l") is read by no expression alternative',
     'an offset is never written for an indirect register configured without one',
     "the 'empty' operand type is only used as the trailing member of a specific operand list",
 ]
